@@ -242,6 +242,7 @@ type searchScanBaseTokens struct {
 	wheres     []whereT
 	whereins   []whereinT
 	whereevals []whereevalT
+	shaRefs    []int // WHEREEVALSHA clauses: tokens from the keyword to the end of the command
 	nofields   bool
 	ulimit     bool
 	limit      uint64
@@ -412,6 +413,11 @@ func (s *Server) parseSearchScanBaseTokens(
 				fallthrough
 			case "whereeval":
 				scriptIsSha := strings.ToLower(wtok) == "whereevalsha"
+				if scriptIsSha {
+					// where the clause sits, counted from the end of the
+					// command (see cmdSetHook)
+					t.shaRefs = append(t.shaRefs, len(nvs)+1)
+				}
 				vs = nvs
 				var script, nargsStr, arg string
 				if vs, script, ok = tokenval(vs); !ok || script == "" {
@@ -477,7 +483,7 @@ func (s *Server) parseSearchScanBaseTokens(
 						err = makeSafeErr(err)
 						return
 					}
-					s.luascripts.PutLRU(shaSum, fn.Proto)
+					s.luascripts.PutLRU(shaSum, fn.Proto, script)
 				}
 				t.whereevals = append(t.whereevals, whereevalT{
 					c: s, luaState: luaState, fn: fn,
